@@ -843,6 +843,75 @@ func (g *warmGen) genHistoryWarm() []hTx {
 	return txs
 }
 
+// c03GenAndRun is histGen.genAndRun (same draws from the random stream) that survives a panic of the code under test:
+// it then returns the transactions generated so far, the panicking one last
+func c03GenAndRun(g *histGen, h *harnessDb) (txs []hTx, obs string, pan string) {
+	if g.p.endInDelete {
+		txs, obs = g.genAndRun(h)
+		return txs, obs, ""
+	}
+	var ob strings.Builder
+	defer func() {
+		if r := recover(); r != nil {
+			obs, pan = ob.String(), "panic: "+fmt.Sprint(r)
+		}
+	}()
+	n := 1 + g.r.intn(g.p.maxTx)
+	for i := 0; i < n; i++ {
+		g.refresh(h)
+		txs = append(txs, g.genTx())
+		ob.WriteString(h.runTx(&txs[len(txs)-1]))
+	}
+	return txs, ob.String(), ""
+}
+
+// c03RunHistory runs a history like runHistory.  When the code under test PANICS inside a transaction (an index that does
+// not mirror the entities makes e.g. setIndex.ProcessBeforeDelete walk a bucket that is not there), the case is cut after
+// the first panicking transaction, the observation to the transactions before it, and the observation of the last of
+// them gets the token OPPANIC:<hex of the panic value> (checks/c03.py: the index oracles see the state the panicking transaction started in, and report the
+// panic itself when they find nothing).  A history whose first transaction panics is an error of the run, as before.
+func c03RunHistory(w *wiring, txs []hTx, tmp string) (string, string, error) {
+	try := func(t []hTx) (c, obs string, err error, pan string) {
+		defer func() {
+			if r := recover(); r != nil {
+				pan = "panic: " + fmt.Sprint(r)
+			}
+		}()
+		c, obs, err = runHistory(w, t, tmp)
+		return
+	}
+	c, obs, err, pan := try(txs)
+	if pan == "" {
+		return c, obs, err
+	}
+	for n := 1; n <= len(txs); n++ {
+		w.sharedBase = nil
+		c2, obs2, err2, pan2 := try(txs[:n])
+		if err2 != nil {
+			return "", "", err2
+		}
+		if pan2 == "" {
+			c, obs = c2, obs2
+			continue
+		}
+		if n == 1 {
+			return "", "", fmt.Errorf("the first transaction of a history panics: %s", pan2)
+		}
+		if k := strings.LastIndex(obs, " ST"); k >= 0 {
+			obs = obs[:k] + " OPPANIC:" + hxs(pan2) + obs[k:]
+		}
+		// the case keeps the panicking transaction as its last one (the observation has one segment less)
+		var cb strings.Builder
+		cb.WriteString(w.text())
+		for i := 0; i < n; i++ {
+			cb.WriteString(" ")
+			cb.WriteString(w.txText(&txs[i]))
+		}
+		return cb.String(), obs, nil
+	}
+	return "", "", fmt.Errorf("a history panics (%s) but none of its prefixes does", pan)
+}
+
 func runStoreC03s(o *opts) error {
 	prof := profileFor(o.get("profile", "c03"))
 	cases := newLineWriter(o.out, "cases.txt")
@@ -852,6 +921,7 @@ func runStoreC03s(o *opts) error {
 	tmp := o.get("tmp", os.TempDir())
 	stats := map[string]int{}
 	storeExtraReads = c03IndexReads
+	c03bWriteCoq(o.out)
 	c03fWriteCoq(o.out) // the schemas of the family wirings as Examples/C03Wirings.v must hold them (compared by checks/c03.py)
 	n := 400
 	if o.thorough() {
@@ -874,7 +944,7 @@ func runStoreC03s(o *opts) error {
 			if err != nil {
 				return fmt.Errorf("corpus %s: %v", cp, err)
 			}
-			c, obs, err := runHistory(w, txs, tmp)
+			c, obs, err := c03RunHistory(w, txs, tmp)
 			if err != nil {
 				return err
 			}
@@ -889,16 +959,27 @@ func runStoreC03s(o *opts) error {
 		return nil
 	}
 	famK := -1 // >= 0: the next history is number famK of the systematic family stream (store_c03f.go)
+	sepK := -1 // >= 0: the next history is number sepK of the regrouping stream (store_c03b.go) over the separator curSep
+	curSep := ""
+	curProf := prof
 	one := func(r *rng, w *wiring, i int, cross bool) error {
 		w.derive()
-		g := &histGen{r: r, w: w, p: prof, ids: prof.ids}
+		g := &histGen{r: r, w: w, p: curProf, ids: curProf.ids}
 		var txs []hTx
 		var c, obs string
-		if famK >= 0 {
+		if sepK >= 0 {
+			txs = (&warmGen{histGen: g, cross: cross}).c03bRegroupHistory(sepK, curSep)
+			stats["histories_regroup"]++
+			var err error
+			c, obs, err = c03RunHistory(w, txs, tmp)
+			if err != nil {
+				return err
+			}
+		} else if famK >= 0 {
 			txs = (&warmGen{histGen: g, cross: cross}).c03fFamilyHistory(famK)
 			stats["histories_family"]++
 			var err error
-			c, obs, err = runHistory(w, txs, tmp)
+			c, obs, err = c03RunHistory(w, txs, tmp)
 			if err != nil {
 				return err
 			}
@@ -908,7 +989,8 @@ func runStoreC03s(o *opts) error {
 			if err != nil {
 				return err
 			}
-			txs, obs = g.genAndRun(h)
+			var pan string
+			txs, obs, pan = c03GenAndRun(g, h)
 			h.close()
 			var cb strings.Builder
 			cb.WriteString(w.text())
@@ -917,12 +999,19 @@ func runStoreC03s(o *opts) error {
 				cb.WriteString(w.txText(&txs[k]))
 			}
 			c = cb.String()
+			if pan != "" {
+				// the code under test panicked in the last transaction generated: the history so far, run again and cut
+				stats["histories_live_panic"]++
+				if c, obs, err = c03RunHistory(w, txs, tmp); err != nil {
+					return err
+				}
+			}
 			stats["histories_live"]++
 		} else {
 			txs = (&warmGen{histGen: g, cross: cross, typed: c03tTypedKeys(w) != nil}).genHistoryWarm()
 			stats["histories_warm"]++
 			var err error
-			c, obs, err = runHistory(w, txs, tmp)
+			c, obs, err = c03RunHistory(w, txs, tmp)
 			if err != nil {
 				return err
 			}
@@ -1003,6 +1092,38 @@ func runStoreC03s(o *opts) error {
 		stats["family_histories"]++
 	}
 	famK = -1
+	// values that are re-groupings of one character sequence over a separator, bare child stores under indexed parents
+	// (store_c03b.go; own random stream): live, warm, regrouping and family histories in turn, one separator per group
+	rb := newRng(o.seed*32452843 + 41)
+	nSep := n / 4
+	if o.thorough() && o.n == 0 || n > 6000 {
+		nSep = n / 6 // thorough tier: the whole run stays within its time budget
+	}
+	for i := 0; i < nSep; i++ {
+		grp := i / 4
+		w := wiringByName(c03bStream[grp%len(c03bStream)])
+		curSep = c03bSepFor(grp)
+		sp2 := *prof
+		sp2.vals = c03bUniverse(curSep)
+		curProf = &sp2
+		famK, sepK = -1, -1
+		switch i % 4 {
+		case 2:
+			sepK = grp / len(c03bStream)
+		case 3:
+			if len(c03fFamily(w)) > 1 {
+				famK = rb.intn(64)
+			} else {
+				sepK = grp/len(c03bStream) + 1
+			}
+		}
+		if err := one(rb, w, i%4, true); err != nil {
+			return err
+		}
+		stats["separator_histories"]++
+		stats["separator_"+hxs(curSep)]++
+	}
+	famK, sepK, curProf = -1, -1, prof
 	writeJSON(o.out, "stats.json", stats)
 	fmt.Fprintf(os.Stderr, "store_c03s: %d histories\n", n)
 	return nil
